@@ -229,6 +229,30 @@ func customPrecomp() (*banderwagon.MSMPrecomp, error) {
 	return &customPrecompVal, customPrecompErr
 }
 
+var (
+	yNearHalfOnce sync.Once
+	yNearHalfTab  [][2]*big.Int
+)
+
+// yNearHalfTable: (x, y) of 96 subgroup points whose ordinate is next to p/2, with and without limb-aligned offsets
+// (computed once per process: the search costs a few modular square roots per entry).
+func yNearHalfTable() [][2]*big.Int {
+	yNearHalfOnce.Do(func() {
+		for k := 0; len(yNearHalfTab) < 96 && k < 4000; k++ {
+			cand := c17Case{Mode: "point", Kind: "y_near_half", E: uint32(37 * k), Seed: uint64(k % 4)}.value()
+			if cand.Sign() != 0 && ref.SubgroupOK(cand) {
+				if y := ref.YFromX(cand); y != nil {
+					yNearHalfTab = append(yNearHalfTab, [2]*big.Int{cand, y})
+				}
+			}
+		}
+		if len(yNearHalfTab) == 0 {
+			panic(hx.Inconclusive{Msg: "no subgroup point with an ordinate next to p/2 found"})
+		}
+	})
+	return yNearHalfTab
+}
+
 var twoTorsionBytes = make([]byte, 32) // decodes to (0,-1)
 
 // runPool executes the history on go-ipa. Every produced element must be a valid curve point.
@@ -268,26 +292,16 @@ func runPool(h history, rec *hx.Rec) ([]*banderwagon.Element, error) {
 				}
 				err = add(a.Op, e)
 			case "y_near_half": // a subgroup element whose affine y is one of the values nearest to p/2 (its negative shares the upper limbs)
-				var xv *big.Int
-				for k := 0; k < 64; k++ {
-					cand := c17Case{Mode: "point", Kind: "y_near_half", E: uint32(a.N + 1000*k), Seed: a.Seed % 4}.value()
-					if ref.SubgroupOK(cand) {
-						xv = cand
-						break
-					}
+				tab := yNearHalfTable()
+				ent := tab[(a.N+int(a.Seed%4)*17)%len(tab)]
+				y := ent[1]
+				if a.Seed >= 4 {
+					y = new(big.Int).Sub(ref.P, y)
 				}
-				if xv == nil {
-					*e = banderwagon.Generator
-				} else {
-					y := ref.YFromX(xv)
-					if a.Seed >= 4 {
-						y = new(big.Int).Sub(ref.P, y)
-					}
-					raw := append(be32any(xv), be32any(y)...)
-					if derr := e.SetBytesUncompressed(raw, true); derr != nil {
-						err = fmt.Errorf("trusted load of a valid point failed: %v", derr)
-						return
-					}
+				raw := append(be32any(ent[0]), be32any(y)...)
+				if derr := e.SetBytesUncompressed(raw, true); derr != nil {
+					err = fmt.Errorf("trusted load of a valid point failed: %v", derr)
+					return
 				}
 				err = add(a.Op, e)
 			case "crs":
